@@ -593,6 +593,10 @@ def run(prog: Program, rep: Report, tier: str) -> None:
 
     c14.step_attribute_freshness(prog, rep, "R02.6", roles=("forcing",))
     sampling_on_every_path(prog, rep, "R02.6")
+    rep.rule("R02.7", "the positions handed to the samplers and the cached level index / weight belong to the same particle list (shared with C14 R14.7)", 1)
+    from . import align
+
+    align.report(prog, rep, "R02.7", "positions, K and A of one particle are paired")
     trilinear_weights(prog, rep, "R02.2")
     z2s_analysis(prog, rep, "R02.3")
     z2s_call(prog, rep, "R02.3")
